@@ -19,7 +19,7 @@ RULE = ('Each case builds an input and a transformed copy with the real ska and 
 ASSUMPTIONS = ['both builds are runs of the same binary; equality of the decoded tables is the oracle',
                'the input generators are those of C01 (record lengths around k, N runs, repeats, palindromes)']
 TRANSFORMS = ['rc', 'perm', 'case', 'wrap', 'gzip', 'sampleperm', 'all']
-REQUIRED = {t: ['tr:' + x for x in TRANSFORMS] + ['many_sample_cases', 'fastq_cases', 'sample_given_twice_side_by_side'] for t in ('quick', 'thorough')}
+REQUIRED = {t: ['tr:' + x for x in TRANSFORMS] + ['many_sample_cases', 'fastq_cases', 'sample_given_twice_side_by_side', 'lists_mixing_two_and_three_column_lines'] for t in ('quick', 'thorough')}
 
 
 def builds(tier):
@@ -117,6 +117,9 @@ def run_fastq(desc, ctx):
             t = g[a:a + L]
             if rng.random() < 0.5:
                 t = M.rc(t)
+            if rng.random() < 0.3:
+                i_ = rng.randrange(L)
+                t = t[:i_] + 'N' + t[i_ + 1:]                   # an N inside the read: the windows behind it start afresh
             q = ''.join(chr(33 + rng.choice([minq, max(0, minq - 1), minq + 1, 40, 40, 40])) for _ in range(L))
             if rng.random() < 0.2:
                 q = chr(33 + max(0, minq - 1)) + q[1:]               # a low quality at the first base, i.e. in the first window
@@ -137,7 +140,7 @@ def run_fastq(desc, ctx):
             for f in smp:
                 for i in range(len(f)):
                     if rng.random() < 0.6:
-                        f[i] = (M.rc(f[i][0]), f[i][1][::-1])
+                        f[i] = (M.rc_n(f[i][0]), f[i][1][::-1])
     if tr == 'perm' or every:
         for smp in tsamples:
             for f in smp:
@@ -157,8 +160,17 @@ def run_fastq(desc, ctx):
             return ctx.path(name + '.gz')
         return ctx.write(name, txt)
 
-    base_lines = ['t%d\t%s\t%s\n' % (i, put('a%d_1.fastq' % i, smp[0], False), put('a%d_2.fastq' % i, smp[1], False)) for i, smp in enumerate(samples)]
-    t_lines = ['t%d\t%s\t%s\n' % (i, put('b%d_1.fastq' % i, smp[0], gz), put('b%d_2.fastq' % i, smp[1], gz)) for i, smp in enumerate(tsamples)]
+    # a share of the samples are given as one read file only (a two-column line among three-column ones)
+    single = [ns >= 2 and rng.random() < 0.3 for _ in range(ns)]
+    if any(single) and not all(single):
+        res.count('lists_mixing_two_and_three_column_lines')
+
+    def line(prefix, i, smp, z):
+        if single[i]:
+            return 't%d\t%s\n' % (i, put('%s%d_1.fastq' % (prefix, i), smp[0] + smp[1], z))
+        return 't%d\t%s\t%s\n' % (i, put('%s%d_1.fastq' % (prefix, i), smp[0], z), put('%s%d_2.fastq' % (prefix, i), smp[1], z))
+    base_lines = [line('a', i, smp, False) for i, smp in enumerate(samples)]
+    t_lines = [line('b', i, smp, gz) for i, smp in enumerate(tsamples)]
     ctx.write('alist', ''.join(base_lines))
     ctx.write('blist', ''.join(t_lines[i] for i in perm))
     extra = ['--min-count', minc, '--min-qual', minq, '--qual-filter', rule]
